@@ -250,4 +250,141 @@ theorem typed_index_facts (xh : XHeap V) (o : Nat) (els : List V) (h : xh.typed 
       · simp [Key.isIdx] at hk
     · intro hn; exact Or.inl ⟨n, hn, rfl⟩
 
+/-! ### every exotic step acts on the ORDINARY part of the heap as zero or one ordinary steps — so the history-level
+essential invariants of the ordinary heap (Hist.lean) hold along histories that involve typed arrays -/
+
+def OrdTrace [DecidableEq V] (undef : V) (h h' : Heap V) : Prop :=
+  ∃ l : List (SOp V), (∀ op ∈ l, op.wf = true) ∧ h' = sRun undef h l
+
+theorem ordTrace_refl [DecidableEq V] (undef : V) (h : Heap V) : OrdTrace undef h h := ⟨[], by simp, rfl⟩
+
+theorem ordTrace_trans [DecidableEq V] (undef : V) {a b c : Heap V} (h1 : OrdTrace undef a b) (h2 : OrdTrace undef b c) :
+    OrdTrace undef a c := by
+  obtain ⟨l1, w1, e1⟩ := h1
+  obtain ⟨l2, w2, e2⟩ := h2
+  refine ⟨l1 ++ l2, ?_, ?_⟩
+  · intro op hm
+    rcases List.mem_append.mp hm with h | h
+    · exact w1 op h
+    · exact w2 op h
+  · rw [e2, e1]; simp [sRun, List.foldl_append]
+
+theorem xDefine_trace [DecidableEq V] (undef : V) (c : V → V) (xh : XHeap V) (o : Nat) (k : Key) (d : Desc V)
+    (hw : d.wellFormed = true) : OrdTrace undef xh.h (xDefine undef c xh o k d).1.h := by
+  have hord : OrdTrace undef xh.h (sDefine undef xh.h o k d).1 :=
+    ⟨[SOp.define o k d], by simpa [SOp.wf] using hw, by simp [sRun, sStep]⟩
+  unfold xDefine
+  cases ht : xh.typed o with
+  | none => exact hord
+  | some els =>
+    cases k with
+    | idx n =>
+      simp only
+      repeat' split
+      all_goals first | exact ordTrace_refl undef xh.h | (simp only [setElem]; exact ordTrace_refl undef xh.h)
+    | str s => exact hord
+    | sym s => exact hord
+
+theorem descValue_wf' (v : V) : (descValue v).wellFormed = true := by simp [descValue, Desc.wellFormed, Desc.isAccessor]
+theorem descFull_wf' (v : V) : (descFull v).wellFormed = true := by simp [descFull, Desc.wellFormed, Desc.isAccessor]
+
+theorem xSetData_trace [DecidableEq V] (undef : V) (c : V → V) (xh : XHeap V) (k : Key) (v : V) (r : Recv) :
+    OrdTrace undef xh.h (xSetData undef c xh k v r).1.h := by
+  unfold xSetData
+  cases r with
+  | prim => exact ordTrace_refl undef xh.h
+  | obj ro =>
+    simp only
+    cases xGetOwn xh ro k with
+    | none => exact xDefine_trace undef c xh ro k _ (descFull_wf' v)
+    | some p =>
+      cases p with
+      | acc g s e cf => exact ordTrace_refl undef xh.h
+      | data v0 w e cf =>
+        simp only
+        split
+        · exact ordTrace_refl undef xh.h
+        · exact xDefine_trace undef c xh ro k _ (descValue_wf' v)
+
+theorem xSet_trace [DecidableEq V] (undef : V) (c : V → V) (xh : XHeap V) (k : Key) (v : V) (r : Recv) :
+    ∀ chain, OrdTrace undef xh.h (xSet undef c xh chain k v r).1.h := by
+  intro chain
+  induction chain with
+  | nil => exact xSetData_trace undef c xh k v r
+  | cons o rest ih =>
+    unfold xSet
+    cases ht : xh.typed o with
+    | none =>
+      simp only
+      cases lookup (xh.h o).props k with
+      | none => exact ih
+      | some p =>
+        cases p with
+        | data v0 w e cf => simp only; split; exact ordTrace_refl undef xh.h; exact xSetData_trace undef c xh k v r
+        | acc g s e cf => cases s <;> exact ordTrace_refl undef xh.h
+    | some els =>
+      cases k with
+      | idx n =>
+        simp only
+        split
+        · split
+          · simp only [setElem]; exact ordTrace_refl undef xh.h
+          · exact ordTrace_refl undef xh.h
+        · split
+          · exact ordTrace_refl undef xh.h
+          · exact xSetData_trace undef c xh (Key.idx n) v r
+      | str s =>
+        simp only
+        cases lookup (xh.h o).props (Key.str s) with
+        | none => exact ih
+        | some p =>
+          cases p with
+          | data v0 w e cf => simp only; split; exact ordTrace_refl undef xh.h; exact xSetData_trace undef c xh (Key.str s) v r
+          | acc g s' e cf => cases s' <;> exact ordTrace_refl undef xh.h
+      | sym s =>
+        simp only
+        cases lookup (xh.h o).props (Key.sym s) with
+        | none => exact ih
+        | some p =>
+          cases p with
+          | data v0 w e cf => simp only; split; exact ordTrace_refl undef xh.h; exact xSetData_trace undef c xh (Key.sym s) v r
+          | acc g s' e cf => cases s' <;> exact ordTrace_refl undef xh.h
+
+def XOp.wf : XOp V → Bool
+  | .define _ _ d => d.wellFormed
+  | _ => true
+
+theorem xStep_trace [DecidableEq V] (undef : V) (c : V → V) (xh : XHeap V) (op : XOp V) (hw : op.wf = true) :
+    OrdTrace undef xh.h (xStep undef c xh op).h := by
+  cases op with
+  | define o k d => exact xDefine_trace undef c xh o k d (by simpa [XOp.wf] using hw)
+  | set ch k v r => exact xSet_trace undef c xh k v r ch
+  | delete o k =>
+    simp only [xStep, xDelete]
+    have hord : OrdTrace undef xh.h (sDelete xh.h o k).1 := ⟨[SOp.delete o k], by simp [SOp.wf], by simp [sRun, sStep]⟩
+    cases xh.typed o with
+    | none => exact hord
+    | some els => cases k with
+      | idx n => exact ordTrace_refl undef xh.h
+      | str s => exact hord
+      | sym s => exact hord
+  | integrity o fr =>
+    simp only [xStep, xSetIntegrity]
+    have hI : OrdTrace undef xh.h (sSetIntegrity xh.h o fr) := ⟨[SOp.integrity o fr], by simp [SOp.wf], by simp [sRun, sStep]⟩
+    have hP : OrdTrace undef xh.h (sPreventExt xh.h o) := ⟨[SOp.preventExt o], by simp [SOp.wf], by simp [sRun, sStep]⟩
+    cases xh.typed o with
+    | none => exact hI
+    | some els => simp only; split; exact hI; exact hP
+  | preventExt o => exact ⟨[SOp.preventExt o], by simp [SOp.wf], by simp [xStep, sRun, sStep]⟩
+  | setProto f o p => exact ⟨[SOp.setProto f o p], by simp [SOp.wf], by simp [xStep, sRun, sStep]⟩
+
+theorem xRun_trace [DecidableEq V] (undef : V) (c : V → V) (ops : List (XOp V)) :
+    ∀ xh : XHeap V, (∀ op ∈ ops, op.wf = true) → OrdTrace undef xh.h (xRun undef c xh ops).h := by
+  induction ops with
+  | nil => intro xh _; exact ordTrace_refl undef xh.h
+  | cons op ops ih =>
+    intro xh hw
+    exact ordTrace_trans undef (xStep_trace undef c xh op (hw op (List.mem_cons_self)))
+      (ih _ (fun o ho => hw o (List.mem_cons_of_mem _ ho)))
+
 end GojaModel.C04
